@@ -19,7 +19,8 @@ COMPONENTS = {
 }
 ASSUMPTIONS = ['pre-emption granularity: replicat source lines and synchronisation primitives',
                'source files do not change during the snapshot']
-PROBES = ['target_write_failed', 'queue_full', 'worker_polled_empty', 'exists_true', 'two_loaders_same_file', 'stall', 'fail_injected']
+PROBES = ['target_write_failed', 'queue_full', 'producer_put_timed_out', 'worker_polled_empty', 'exists_true', 'restore_lock_contended',
+          'stalled_call', 'fail_injected']
 SHRINK_SEEDS = 16     # a race needs luck again after the workload changed
 TIERS = {'quick': {'budget_s': 75, 'batch': 20}, 'thorough': {'budget_s': 900, 'batch': 40}}
 
@@ -112,6 +113,13 @@ def run_case(case):
         W.env = W_env
         W.digests.clear()
         W.fired.clear()
+        for phase, rr in (('snapshot', ref_snap), ('restore', ref_rest)):
+            if rr is not None and rr.exc is not None:
+                # a fault-free backup / restore of a valid tree has no reason to fail under any schedule,
+                # the sequential one included
+                viol.append({'cls': 'spurious-error', 'sig': {'phase': phase, 'exc': type(rr.exc).__name__, 'run': 'sequential'},
+                             'msg': f'{phase}: the sequential fault-free run raised {rr.exc!r}'})
+                return _result(W, viol, probes, case)
         if ref_snap.hang is not None or (ref_rest is not None and ref_rest.hang is not None):
             viol.append({'cls': 'hang', 'sig': {'phase': 'reference'},
                          'msg': f'sequential reference run did not terminate: {ref_snap.hang or ref_rest.hang}'})
@@ -131,6 +139,11 @@ def run_case(case):
         b = snap.backend
         injected = b is not None and b.failed_call_desc is not None
         _common(viol, 'snapshot', snap, N, injected, ref_snap, probes)
+        c = (snap.stats or {}).get('counters', {})
+        for probe, key in (('queue_full', 'queue_full'), ('producer_put_timed_out', 'queue_put_timeout'),
+                           ('worker_polled_empty', 'queue_get_timeout')):
+            if c.get(key):
+                probes[probe] = 1
         if b is not None:
             if b.counts.get('exists', 0) > len(b.uploads):
                 probes['exists_true'] = 1
@@ -153,6 +166,8 @@ def run_case(case):
                     target_fault.remove()
             b = rest.backend
             injected = b is not None and b.failed_call_desc is not None
+            if (rest.stats or {}).get('counters', {}).get('lock_contended'):
+                probes['restore_lock_contended'] = 1
             if target_fault is not None and target_fault.fired:
                 probes['target_write_failed'] = 1
                 if rest.hang is not None:
@@ -260,6 +275,8 @@ def _tree_diff(a, b):
 
 def _result(W, viol, probes, case):
     fired = dict(W.fired)
+    if fired.get('stall'):
+        probes['stalled_call'] = 1
     return {'violations': viol, 'digest': W.digest(), 'nontrivial': W.switches > 0, 'fired': fired,
             'probes': probes, 'sim_s': W.sim_s, 'steps': W.sim_steps,
             'sample': {'N': case['N'], 'flavour': case['flavour'], 'files': [(e['p'], len(gen.spec_data(e))) for e in case['tree']],
